@@ -335,6 +335,9 @@ class Emitter:
         if ck == "BitCast":
             return "((%s)%s)" % (self.ctype(n), self.paren(self.E(inner)))
         if ck in ("DerivedToBase", "UncheckedDerivedToBase"):
+            a, b = self.try_ctype(n), self.try_ctype(inner)
+            if a is not None and a == b and a.startswith("struct vf_"):
+                return self.E(inner)  # implementation base of a modelled library class: same model type
             return self.derived_to_base(n, inner)
         if ck == "BaseToDerived":
             return self.base_to_derived(n, inner)
@@ -443,11 +446,32 @@ class Emitter:
         op = n["opcode"]
         if op == ",":
             return "(%s, %s)" % (self.E(a), self.E(b))
+        if op == "&&" and self.is_log_isenabled(n):
+            # XBT_LOG_ISENABLED(cat, prio): run-time logging configuration = unconstrained environment flag
+            self.globals["vf_log_enabled"] = "_Bool"
+            return "vf_log_enabled"
         if op == "=" and self.try_ctype(a) and self.try_ctype(a).startswith("struct vf_str"):
             pass
         return "%s %s %s" % (self.paren(self.E(a)), op, self.paren(self.E(b)))
 
     e_CompoundAssignOperator = e_BinaryOperator
+
+    @staticmethod
+    def is_log_isenabled(n):
+        """structural match of _XBT_LOG_ISENABLEDV: (prio >= STATIC && (cat.initialized || _xbt_log_cat_init(..))) && prio >= cat.threshold"""
+        def noparen(x):
+            while x.get("kind") in ("ParenExpr", "ImplicitCastExpr"):
+                x = x["inner"][0]
+            return x
+        l = noparen(n["inner"][0])
+        if l.get("kind") != "BinaryOperator" or l.get("opcode") != "&&":
+            return False
+        o = noparen(l["inner"][1])
+        if o.get("kind") != "BinaryOperator" or o.get("opcode") != "||":
+            return False
+        c = noparen(o["inner"][1])
+        return c.get("kind") == "CallExpr" and \
+            skip(c["inner"][0]).get("referencedDecl", {}).get("name") == "_xbt_log_cat_init"
 
     def e_CXXRewrittenBinaryOperator(self, n):
         return self.E(n["inner"][0])
